@@ -2,6 +2,7 @@
 //!   ikv tables sliders <outdir>            one file per (kind, square): header + one row per subset of the mask
 //!   ikv tables leapers <outfile>           4 x 64 rows
 //!   ikv tables random <outfile> <n> <seed> n full 64-bit occupancies per slider kind, looked up unmasked
+use inkayaku_core::constants::{Direction, Square};
 use inkayaku_board::verif::{leaper_lookup, slider_index, slider_lookup, slider_mask, slider_table_len};
 use rand::rngs::StdRng;
 use rand::{Rng, SeedableRng};
@@ -93,6 +94,20 @@ pub fn run(args: &[String]) -> i32 {
                     row["sq"] = json!(shift_name(shift));
                     row["occ"] = names(occ);
                     out.emit(&row);
+                }
+            }
+            0
+        }
+        "geom" => {
+            // the geometry primitives the tables are built from: every square x every named direction
+            let mut out = Out::create(&args[1]);
+            for (n, sq) in Square::VALUES.iter().enumerate() {
+                out.emit(&json!({"k": "index", "n": n, "name": sq.fen}));
+                out.emit(&json!({"k": "index", "n": n, "name": Square::from_index(n).map_or("none", |s| s.fen)}));
+                out.emit(&json!({"k": "index", "n": n, "name": Square::from_indices(n % 8, n / 8).map_or("none", |s| s.fen)}));
+                for d in Direction::CARDINAL_DIRECTIONS.iter().chain(Direction::KNIGHT_DIRECTIONS.iter()) {
+                    let to = guarded(|| sq.translate(d).map_or("none".to_string(), |t| t.fen.to_string())).unwrap_or_else(|m| format!("panic: {}", m));
+                    out.emit(&json!({"k": "translate", "sq": sq.fen, "df": d.delta_file, "dr": d.delta_rank, "to": to}));
                 }
             }
             0
